@@ -4,19 +4,19 @@
 # baseline suite as it is (only the six network tests fail), and that the demonstration passes
 # without the change and fails with it.  Prints one JSON line.
 set -u
-D=$(realpath "$1"); WT=/tmp/wt/verify
+D=$(realpath "$1"); WT=${WT:-/tmp/wt/verify}
 DEMOFLAGS="${2:-}"   # extra cargo flags for the demo (e.g. --features content-blocking)
 export CARGO_NET_OFFLINE=true
 if [ ! -d $WT ]; then git -C /repo worktree add -q --detach $WT HEAD; fi
 cd $WT && git checkout -q --detach $(git -C /repo rev-parse HEAD) 2>/dev/null; git checkout -q -- . ; rm -f tests/seeded_demo.rs
 cp "$D/demo.rs" tests/seeded_demo.rs
-base_demo=$(timeout 3000 cargo test --offline $DEMOFLAGS --test seeded_demo 2>&1 | grep -E "^test result" | head -1)
+base_demo=$(timeout 3000 cargo test --offline -j ${JOBS:-8} $DEMOFLAGS --test seeded_demo 2>&1 | grep -E "^test result" | head -1)
 git apply "$D/patch.diff" || { echo '{"ok": false, "why": "patch does not apply"}'; exit 1; }
-mut_out=$(timeout 3000 cargo test --offline $DEMOFLAGS --test seeded_demo 2>&1)
+mut_out=$(timeout 3000 cargo test --offline -j ${JOBS:-8} $DEMOFLAGS --test seeded_demo 2>&1)
 mut_demo=$(echo "$mut_out" | grep -E "^test result" | head -1)
 [ -z "$mut_demo" ] && mut_demo=$(echo "$mut_out" | grep -E "^error(\[|:)" | head -1)
 rm -f tests/seeded_demo.rs
-failed=$(timeout 3000 cargo test --offline --workspace --no-fail-fast 2>&1 | grep -E "^test .* \.\.\. FAILED" | sed 's/ \.\.\. FAILED//; s/^test //' | sort | tr '\n' ' ')
+failed=$(timeout 3000 cargo test --offline --workspace --no-fail-fast -j ${JOBS:-8} 2>&1 | grep -E "^test .* \.\.\. FAILED" | sed 's/ \.\.\. FAILED//; s/^test //' | sort | tr '\n' ' ')
 git checkout -q -- . ; rm -f tests/seeded_demo.rs
 python3 - "$base_demo" "$mut_demo" "$failed" <<'PY'
 import sys, json
